@@ -20,6 +20,8 @@ macro_rules! total_typed {
         #[kani::unwind($U)]
         #[kani::stub(alloc::fmt::format, no_format)]
         #[kani::stub(<std::os::fd::OwnedFd as core::ops::Drop>::drop, no_close)]
+        #[kani::stub(core::str::from_utf8, naive_from_utf8)]
+        #[kani::stub(core::slice::memchr::memchr, naive_memchr)]
         fn $h() {
             let buf: [u8; $N] = kani::any();
             let len: usize = kani::any();
@@ -54,7 +56,7 @@ mod gv {
     total_typed!(c04_gv_dec_u, true, u32, Signature::U32, 8, 9);
     total_typed!(c04_gv_dec_t, true, u64, Signature::U64, 12, 9);
     total_typed!(c04_gv_dec_d, true, f64, Signature::F64, 12, 9);
-    total_typed!(c04_gv_dec_s, true, &str, Signature::Str, 6, 9);
+    total_typed!(c04_gv_dec_s, true, &str, Signature::Str, 5, 9);
 }
 
 /// Dynamic target: `Value` for a leaf signature (ValueSeed / deserialize_any path).
@@ -64,6 +66,8 @@ macro_rules! total_dyn {
         #[kani::unwind($U)]
         #[kani::stub(alloc::fmt::format, no_format)]
         #[kani::stub(<std::os::fd::OwnedFd as core::ops::Drop>::drop, no_close)]
+        #[kani::stub(core::str::from_utf8, naive_from_utf8)]
+        #[kani::stub(core::slice::memchr::memchr, naive_memchr)]
         fn $h() {
             let buf: [u8; $N] = kani::any();
             let len: usize = kani::any();
